@@ -1,5 +1,5 @@
 INIT Init
 NEXT Next
 CONSTANT ChunkSize = 20
-INVARIANTS ExportUsable ResultIsLFP
+INVARIANTS TablesMonotone ExportUsable ResultIsLFP
 CHECK_DEADLOCK FALSE
